@@ -13,6 +13,7 @@ const (
 	chPick                  // n = candidates: index into the ready tasks sorted by id
 	chSelect                // n = cases: rotation of the polling order of a select
 	chEnv                   // environment decision drawn at run time
+	chMap                   // n = keys: rotation of the (sorted) iteration order of a map
 )
 
 // Policy parametrises how choices are drawn in generate mode.
@@ -30,6 +31,8 @@ type Policy struct {
 	PickUniform bool
 	// SelectPer1024 is the probability of rotating a select's polling order.
 	SelectPer1024 int
+	// MapPer1024 is the probability of rotating the iteration order of a map range.
+	MapPer1024 int
 }
 
 // Choices is a recorded or replayed decision list.
@@ -144,6 +147,10 @@ func (c *Choices) choose(kind chKind, n int) int {
 		}
 	case chEnv:
 		v = int(c.rng.Next() % uint64(n))
+	case chMap:
+		if c.pol.MapPer1024 > 0 && int(c.rng.Next()%1024) < c.pol.MapPer1024 {
+			v = int(c.rng.Next() % uint64(n))
+		}
 	}
 
 	c.list = push(c.list, uint16(v))
